@@ -309,6 +309,11 @@ nni_http_req_parse(nng_http *conn, void *buf, size_t n, size_t *lenp)
 			req->data.parsed = true;
 			rv               = http_req_parse_line(conn, line);
 		}
+		if (rv == NNG_ENOMEM) {
+			// do not go on with a request that lacks its URI or
+			// one of its headers
+			break;
+		}
 	}
 
 	if (rv != NNG_EAGAIN) {
